@@ -122,6 +122,46 @@ func exec(t []string) string {
 			return "accept"
 		}
 		return "reject"
+	case "checkseq":
+		// checkseq <hashA> <chainA> <wireA> <10 tokens of proof B as in check>:
+		// ONE AuxPow variable decodes proof A, checks it, then decodes proof B and checks that.
+		// The verdict must be that of proof B alone.
+		var ap auxpow.AuxPow
+		if err := ap.Deserialize(bytes.NewReader(hx.UnHex(t[3]))); err != nil {
+			panic("harness: proof A does not decode")
+		}
+		ha := hash1(t[1])
+		ap.Check(&ha, atoi(t[2]))
+		u := t[3:] // u[1..10] = the check tokens of B
+		tx := decodeTx(u[10])
+		bp := auxpow.AuxPow{
+			AuxMerkleBranch:   hashes(u[7]),
+			AuxMerkleIndex:    atoi(u[8]),
+			ParCoinbaseTx:     tx,
+			ParCoinBaseMerkle: hashes(u[4]),
+			ParMerkleIndex:    atoi(u[5]),
+		}
+		bp.ParBlockHeader.MerkleRoot = hash1(u[6])
+		cb := tx.Hash()
+		script := "none"
+		if len(tx.TxIn) > 0 {
+			script = hx.Hex(tx.TxIn[0].SignatureScript)
+		}
+		if hex.EncodeToString(cb[:]) != u[3] || script != u[9] {
+			return "oracle-mismatch"
+		}
+		buf := new(bytes.Buffer)
+		if err := bp.Serialize(buf); err != nil {
+			return "unserializable"
+		}
+		if err := ap.Deserialize(bytes.NewReader(buf.Bytes())); err != nil {
+			return "undecodable"
+		}
+		hb := hash1(u[1])
+		if ap.Check(&hb, atoi(u[2])) {
+			return "accept"
+		}
+		return "reject"
 	case "branch":
 		r := auxpow.GetMerkleRoot(hash1(t[1]), hashes(t[2]), atoi(t[3]))
 		return hex.EncodeToString(r[:])
@@ -182,6 +222,9 @@ var markerBytes = []byte{0xfa, 0xbe, 'm', 'm'}
 // (2) carry exactly one marker in the script BYTES, immediately followed by the reversed aux
 // root recomputed from this block hash, then size = 2^h and a nonce giving the slot.
 func oracle(t []string, out string) *hx.Violation {
+	if t[0] == "checkseq" { // judged as the wire check of proof B
+		return oracle(append([]string{"checkw"}, t[4:]...), out)
+	}
 	if (t[0] != "check" && t[0] != "checkw") || out != "accept" {
 		return nil
 	}
@@ -381,6 +424,31 @@ func validProof(r *hx.Rand, h int, shift bool) (*proof, []byte, int) {
 	return p, script, off
 }
 
+func (p *proof) wire() string {
+	ap := auxpow.AuxPow{AuxMerkleBranch: p.auxBranch, AuxMerkleIndex: p.auxIdx, ParCoinbaseTx: p.tx,
+		ParCoinBaseMerkle: p.parBranch, ParMerkleIndex: p.parIdx}
+	ap.ParBlockHeader.MerkleRoot = p.parRoot
+	buf := new(bytes.Buffer)
+	if err := ap.Serialize(buf); err != nil {
+		panic("harness: " + err.Error())
+	}
+	return hx.Hex(buf.Bytes())
+}
+
+// the check tokens of p (without the op name)
+func (p *proof) tokens() string {
+	buf := new(bytes.Buffer)
+	p.tx.Serialize(buf)
+	cb := p.tx.Hash()
+	script := "none"
+	if len(p.tx.TxIn) > 0 {
+		script = hx.Hex(p.tx.TxIn[0].SignatureScript)
+	}
+	return fmt.Sprintf("%s %d %s %s %d %s %s %d %s %s", hex.EncodeToString(p.hash[:]), p.chainID,
+		hex.EncodeToString(cb[:]), hashesHex(p.parBranch), p.parIdx, hex.EncodeToString(p.parRoot[:]),
+		hashesHex(p.auxBranch), p.auxIdx, script, hx.Hex(buf.Bytes()))
+}
+
 func (p *proof) withScript(s []byte) *proof {
 	q := *p
 	tx := p.tx
@@ -524,6 +592,26 @@ func gen(g *hx.Gen) {
 		m(func(q *proof) { tx := q.tx; tx.LockTime++; q.tx = tx }) // coinbase changed, parent root not
 		m(func(q *proof) { tx := q.tx; tx.TxIn = nil; q.tx = tx; q.parRoot = auxpow.GetMerkleRoot(q.tx.Hash(), q.parBranch, q.parIdx) })
 		m(func(q *proof) { q.parIdx = -1; q.parRoot = common.Uint256{} })
+		// one AuxPow variable reused for two proofs: A = p (valid), B = a forgery that keeps A's parent
+		// branch/root but carries a coinbase committing to another block; and B = another valid proof
+		if !shift && h < 32 {
+			q := *p
+			q.hash = randHash(r)
+			var rev common.Uint256
+			copy(rev[:], reverse(q.hash[:]))
+			root2 := auxpow.GetMerkleRoot(rev, q.auxBranch, q.auxIdx)
+			s2 := append([]byte{}, script...)
+			copy(s2[off+4:off+36], reverse(root2[:]))
+			tx := p.tx
+			in := *tx.TxIn[0]
+			in.SignatureScript = s2
+			tx.TxIn = []*auxpow.BtcTxIn{&in}
+			q.tx = tx // parent root NOT recomputed: the forged coinbase is not under it
+			g.Emit("checkseq %s %d %s %s", hex.EncodeToString(p.hash[:]), p.chainID, p.wire(), q.tokens())
+			q2, _, _ := validProof(r, pickHeight(r)%32, false)
+			g.Emit("checkseq %s %d %s %s", hex.EncodeToString(p.hash[:]), p.chainID, p.wire(), q2.tokens())
+			g.Emit("checkseq %s %d %s %s", hex.EncodeToString(p.hash[:]), p.chainID, p.wire(), p.tokens())
+		}
 		// through the wire format: indexes travel as uint32
 		p.emitOp(g, "checkw")
 		{
